@@ -192,10 +192,12 @@ class SolveGroupSwizzlerPartsel(object):
             print("Domain: %d..%d" % (t_range[0], t_range[1]))
         if t_range[0] == t_range[1]:
             # Single value
+            # (a literal of the field's own type: a negative value compared with an 
+            # unsigned literal would never match)
             e.append(ExprBinModel(
                         ExprFieldRefModel(f),
                         BinExprType.Eq,
-                        ExprLiteralModel(t_range[0], False, 32)))
+                        ExprLiteralModel(t_range[0], f.is_signed, f.width)))
         else:
             # Determine the max width to use for swizzling. 
             # max value of abs bounds
@@ -208,9 +210,11 @@ class SolveGroupSwizzlerPartsel(object):
                 d_width += 1
                 maxval >>= 1
     
-            if t_range[0] < 0:
+            if t_range[0] < 0 or len(range_l) > 1:
                 # Negative values differ from non-negative ones in their 
-                # upper (sign) bits: the pattern must span the whole field
+                # upper (sign) bits: the pattern must span the whole field.
+                # So it must when the domain has several parts: a pattern of 
+                # the low bits alone also fits the values of another part
                 d_width = f.width
     
             if self.debug > 0:
